@@ -576,6 +576,14 @@ func (s *Stream) resetOutgoingStreamSequenceNumbers() {
 	s.lock.Lock()
 	defer s.lock.Unlock()
 
+	// A reset request is only sent for a stream that has left the open state.
+	// An open stream found under the identifier when the (late) response
+	// arrives is a newer incarnation: its counters started at zero and may
+	// already have advanced, they must not be rewound.
+	if s.state == StreamStateOpen {
+		return
+	}
+
 	// RFC 8260 extends RFC 6525 stream reset, so when an outgoing stream is
 	// reset, the SSN and both ordered/unordered MID counters restart at zero.
 	s.sequenceNumber = 0
